@@ -19,7 +19,10 @@ META = {
     "rule": "layout histories (10-60 edits, no implementation-chosen "
             "results) x 5 lookup schedules per history; final probe = "
             "complete point sweep + 20 critical-coordinate ranges through "
-            "every lookup at every scope. Non-trivial = every history; "
+            "every lookup at every scope; stream 'scale': one container "
+            "with 40/300/1100/2100 members (thorough up to 4200), edits = "
+            "0.3-1.1 x members, three lookup schedules. Non-trivial = every "
+            "history; "
             "distinct = hash of the operation list.",
     "reach": {"replicas_compared": 500, "final_answers_compared": 500000,
               # harness-side count of index-affecting edits pending on a
